@@ -375,10 +375,8 @@ def _constructors_ob(name, vary):
             E.e.snapshot = lambda m: {"slots": [[_choice.value_in_model(m, x)[0] for x in grp] for grp in (calls, uses, exts, comps)],
                                       "expected": _choice.value_in_model(m, h.want)}
             with contextlib.redirect_stdout(io.StringIO()), contextlib.redirect_stderr(io.StringIO()):
-                p = _parserh.project(_rel_files([x[0] for x in calls], [x[0] for x in uses], [x[0] for x in exts], [x[0] for x in comps]), **GSET)
-                from fv import patch as _patch
-                with _patch.patched(gr, extra=_parserh.helper_patches()):
-                    got = _observe_rel(p)
+                got = _parserh.project(_rel_files([x[0] for x in calls], [x[0] for x in uses], [x[0] for x in exts], [x[0] for x in comps]),
+                                       post=_observe_rel, post_modules=(gr,), **GSET)
             E.reachable("built")
             for k in sorted(got):
                 E.require(_choice.apply(lambda g, w_, k=k: g == w_[k], got[k], h.want), f"{k}: differs from the declared relation")
